@@ -21,11 +21,33 @@ pub enum Key {
     Str(String),
 }
 
-#[derive(Clone, Debug, Default)]
+#[derive(Clone, Debug)]
 pub struct Arr {
     pub seq: Vec<V>,
     /// insertion order kept for readability; compared as a map
     pub dict: Vec<(Key, V)>,
+    /// origin id: copied with the value, replaced when this occurrence is written. Not a language
+    /// notion — it only lets the explicit-state search (C06) keep apart states that differ in which
+    /// occurrences a copy-on-write implementation may still share.
+    pub id: u64,
+}
+
+thread_local! {
+    static NEXT_ID: std::cell::Cell<u64> = std::cell::Cell::new(1);
+}
+
+pub fn fresh_id() -> u64 {
+    NEXT_ID.with(|c| {
+        let v = c.get();
+        c.set(v + 1);
+        v
+    })
+}
+
+impl Default for Arr {
+    fn default() -> Self {
+        Arr { seq: Vec::new(), dict: Vec::new(), id: fresh_id() }
+    }
 }
 
 #[derive(Clone, Debug, PartialEq)]
@@ -425,6 +447,10 @@ pub fn index_slot<'a>(a: &'a mut V, i: &V) -> R<&'a mut V> {
     if let V::Myst = a {
         *a = V::Arr(Arr::default());
     }
+    if let V::Arr(arr) = a {
+        // this occurrence is being written: it stops sharing with its copies
+        arr.id = fresh_id();
+    }
     match a {
         V::Arr(arr) => match i {
             V::Num(n) => {
@@ -455,7 +481,7 @@ pub fn array_coerce(v: &mut V) {
         V::Myst => *v = V::Arr(Arr::default()),
         _ => {
             let old = std::mem::replace(v, V::Myst);
-            *v = V::Arr(Arr { seq: vec![old], dict: Vec::new() });
+            *v = V::Arr(Arr { seq: vec![old], dict: Vec::new(), id: fresh_id() });
         }
     }
 }
@@ -463,6 +489,7 @@ pub fn array_coerce(v: &mut V) {
 pub fn push(v: &mut V, vals: Vec<V>) -> R<()> {
     array_coerce(v);
     if let V::Arr(a) = v {
+        a.id = fresh_id();
         a.seq.extend(vals);
         if a.seq.len() > MAX_LEN {
             return Err(Stop::Budget("array too long"));
@@ -473,7 +500,10 @@ pub fn push(v: &mut V, vals: Vec<V>) -> R<()> {
 
 pub fn pop(v: &mut V) -> R<V> {
     match v {
-        V::Arr(a) => Ok(if a.seq.is_empty() { V::Myst } else { a.seq.remove(0) }),
+        V::Arr(a) => {
+            a.id = fresh_id();
+            Ok(if a.seq.is_empty() { V::Myst } else { a.seq.remove(0) })
+        }
         _ => Err(Stop::Error("roll of a non-array")),
     }
 }
@@ -517,7 +547,7 @@ pub fn split(v: &V, delim: Option<&V>) -> R<V> {
                     out
                 }
             };
-            Ok(V::Arr(Arr { seq: pieces.into_iter().map(V::Str).collect(), dict: Vec::new() }))
+            Ok(V::Arr(Arr { seq: pieces.into_iter().map(V::Str).collect(), dict: Vec::new(), id: fresh_id() }))
         }
         _ => Err(Stop::Error("split of a non-string")),
     }
